@@ -27,6 +27,7 @@ func main() {
 	tags := flag.String("tags", "", "extra build tags for the load")
 	goarch := flag.String("goarch", "", "GOARCH for the load")
 	noSelf := flag.Bool("no-selfcheck", false, "thorough tier: skip variant self-validation")
+	noInline := flag.Bool("no-inline", false, "disable virtual inlining of unexported same-package helpers (debugging)")
 	flag.Parse()
 	if e := os.Getenv("VERIF_TIER"); e != "" && !isFlagSet("tier") {
 		*tier = e
@@ -83,6 +84,17 @@ func main() {
 	}
 
 	w, lerr := core.Load(opts)
+	if lerr == nil && !*noInline {
+		n := rules.EnableInlining(w)
+		if os.Getenv("DSCHECK_DEBUG_INLINE") != "" {
+			fmt.Printf("virtual inlining: %d call sites\n", n)
+			for _, f := range w.RepoFns {
+				if core.IsInlined(f) {
+					fmt.Printf("  inlined: %s into %v\n", core.FuncKey(f), core.HostKeys(f))
+				}
+			}
+		}
+	}
 	if debugHook != nil && lerr == nil {
 		debugHook(w)
 	}
